@@ -211,7 +211,10 @@ class BufferCursor(Cursor):
             )
 
         # -2 to skip over sentinel
-        pos = min(pos, len(buf.linecache) - 2)
+        last = len(buf.linecache) - 1
+        if buf.linecache[last].length == 0:
+            last -= 1  # the text ends in a line break: report its last line
+        pos = max(0, min(pos, last))
         start, line, length = buf.linecache[pos]
         end = start + length
         col = pos - start
@@ -501,7 +504,7 @@ class Buffer(Text):
             return 0
         if pos is None:
             pos = self.pos
-        pos = max(0, min(pos, len(self.linecache) - 2))
+        pos = max(0, min(pos, len(self.linecache) - 1))
         return self.linecache[pos].lineno
 
     def poscol(self, pos: int | None = None) -> int:
@@ -683,7 +686,10 @@ class Buffer(Text):
             )
 
         # -2 to skip over sentinel
-        pos = min(pos, len(self.linecache) - 2)
+        last = len(self.linecache) - 1
+        if self.linecache[last].length == 0:
+            last -= 1  # the text ends in a line break: report its last line
+        pos = max(0, min(pos, last))
         start, line, length = self.linecache[pos]
         end = start + length
         col = pos - start
